@@ -212,6 +212,8 @@ def key(n, names=False, subst=None):
                 return key(subst[d.get("d")], names, subst)
             if names == "type":
                 return ("$" + d.get("n")) if dk == "param" else "$<%s>" % (d.get("t") or "?").replace("const ", "")
+            if isinstance(names, dict):  # role table: declaration id -> role name (engine/canon.py); never the source name
+                return names.get(d.get("d")) or "v%d" % d.get("d")
             return (d.get("n") if names else "v%d" % d.get("d")) or "?"
         if dk == "enumconst":
             return d.get("qn")
@@ -275,6 +277,8 @@ def key(n, names=False, subst=None):
     if k in ("UnresolvedLookupExpr", "DependentScopeDeclRefExpr", "UnresolvedMemberExpr"):
         return "~" + (d.get("n") or "?")
     if k == "VarDecl":
+        if isinstance(names, dict):
+            return "decl(%s)" % (names.get(d.get("d")) or "v%d" % d.get("d"))
         return "decl(%s)" % (d.get("n") if names else "v%d" % d.get("d"))
     return "%s(%s)" % (k, ",".join(key(c, names, subst) for c in n.c))
 
